@@ -50,8 +50,18 @@ func Perm(n int) []int {
 	return mrand.Perm(n)
 }
 
-func Int() int             { return mrand.Int() }
-func Int63() int64         { return mrand.Int63() }
+func Int() int {
+	if vrt.RandControlled() {
+		return int(wide(1<<63 - 1))
+	}
+	return mrand.Int()
+}
+func Int63() int64 {
+	if vrt.RandControlled() {
+		return int64(wide(1<<63 - 1))
+	}
+	return mrand.Int63()
+}
 func Int31n(n int32) int32 { return int32(Intn(int(n))) }
 func Int63n(n int64) int64 { return int64(Intn(int(n))) }
 func Shuffle(n int, swap func(i, j int)) {
@@ -66,3 +76,60 @@ func Shuffle(n int, swap func(i, j int)) {
 }
 func NormFloat64() float64 { return mrand.NormFloat64() }
 func ExpFloat64() float64  { return mrand.ExpFloat64() }
+
+// The rest of the package-level API of math/rand, so that a change of the code under test that starts using
+// another function still builds.  In choice mode the wide-range draws answer one of four representatives
+// (0, 1, the middle and the top of the range); a generator of one's own (New, NewSource) is math/rand's.
+
+type (
+	Rand     = mrand.Rand
+	Source   = mrand.Source
+	Source64 = mrand.Source64
+	Zipf     = mrand.Zipf
+)
+
+func New(src Source) *Rand                             { return mrand.New(src) }
+func NewSource(seed int64) Source                      { return mrand.NewSource(seed) }
+func NewZipf(r *Rand, s, v float64, imax uint64) *Zipf { return mrand.NewZipf(r, s, v, imax) }
+
+func wide(top uint64) uint64 {
+	return []uint64{0, 1, top / 2, top}[vrt.RandIntn(4)]
+}
+
+func Uint32() uint32 {
+	if vrt.RandControlled() {
+		return uint32(wide(1<<32 - 1))
+	}
+	return mrand.Uint32()
+}
+
+func Uint64() uint64 {
+	if vrt.RandControlled() {
+		return wide(1<<64 - 1)
+	}
+	return mrand.Uint64()
+}
+
+func Int31() int32 {
+	if vrt.RandControlled() {
+		return int32(wide(1<<31 - 1))
+	}
+	return mrand.Int31()
+}
+
+func Float32() float32 {
+	if vrt.RandControlled() {
+		return float32(vrt.RandFloat64())
+	}
+	return mrand.Float32()
+}
+
+func Read(p []byte) (n int, err error) {
+	if vrt.RandControlled() {
+		for i := range p {
+			p[i] = byte(wide(255))
+		}
+		return len(p), nil
+	}
+	return mrand.Read(p)
+}
